@@ -35,7 +35,17 @@ def gen_pair(ctx, rng):
     no = rng.choice([1, 1, 2, 2, 3, 4, 6, 7, 10, 12])
     j, _ = gen.gen_circuit(rng, max_inputs=ni, min_inputs=ni, max_gates=10, n_outputs=no, max_arity=3)
     a = realize(j)
-    mode = rng.choice(['other', 'other', 'same', 'flip', 'shape', 'neg_one', 'neg_one'])
+    mode = rng.choice(['other', 'other', 'same', 'flip', 'shape', 'neg_one', 'neg_one', 'perm_inputs'])
+    if mode == 'perm_inputs' and ni >= 2:
+        # the same gates with the input list in another order: inputs are positional, so this is another function
+        b = json.loads(json.dumps(a))
+        ins = list(b['inputs'])
+        while ins == b['inputs']:
+            rng.shuffle(ins)
+        b = realize({'gates': b['gates'], 'inputs': ins, 'outputs': b['outputs'], 'blocks': []})
+        if len(a['outputs']) != no:
+            return None
+        return a, b
     if mode == 'neg_one':
         # the same circuit with exactly one output position complemented: the miter is True everywhere
         b = json.loads(json.dumps(a))
